@@ -124,7 +124,73 @@ class AnalysisError(Exception):
     Mapped to exit code 2 — never a silent pass and never a VIOLATION."""
 
 
-def _normalise_tree(tree: ast.Module):
+class _Desugar(ast.NodeTransformer):
+    """getattr(x, "name") -> x.name ;  a, b = <attribute chain>  ->  a = chain[0]; b = chain[1]  (so that the alias
+    inliner sees through tuple-unpacked signal lists)."""
+
+    def visit_Call(self, node):
+        self.generic_visit(node)
+        if isinstance(node.func, ast.Name) and node.func.id == "getattr" and len(node.args) == 2 and not node.keywords and \
+                isinstance(node.args[1], ast.Constant) and isinstance(node.args[1].value, str) and node.args[1].value.isidentifier():
+            return ast.copy_location(ast.Attribute(value=node.args[0], attr=node.args[1].value, ctx=ast.Load()), node)
+        return node
+
+    def _split(self, stmts):
+        import copy as _copy
+        # inliner temporaries:  _rK__h = (e1, e2); a, b = _rK__h   ->   a, b = (e1, e2)
+        merged = []
+        i = 0
+        while i < len(stmts):
+            st = stmts[i]
+            nxt = stmts[i + 1] if i + 1 < len(stmts) else None
+            if isinstance(st, ast.Assign) and len(st.targets) == 1 and isinstance(st.targets[0], ast.Name) and st.targets[0].id.startswith("_r") \
+                    and "__" in st.targets[0].id and isinstance(st.value, ast.Tuple) and isinstance(nxt, ast.Assign) and \
+                    isinstance(nxt.value, ast.Name) and nxt.value.id == st.targets[0].id and len(nxt.targets) == 1 and \
+                    isinstance(nxt.targets[0], ast.Tuple) and len(nxt.targets[0].elts) == len(st.value.elts):
+                merged.append(ast.copy_location(ast.Assign(targets=nxt.targets, value=st.value), nxt))
+                i += 2
+                continue
+            merged.append(st)
+            i += 1
+        stmts = merged
+        out = []
+        for st in stmts:
+            # parallel assignment without interference:  a, b = x, y  ->  a = x; b = y
+            if isinstance(st, ast.Assign) and len(st.targets) == 1 and isinstance(st.targets[0], ast.Tuple) and \
+                    isinstance(st.value, ast.Tuple) and len(st.targets[0].elts) == len(st.value.elts) and \
+                    not any(isinstance(e, ast.Starred) for e in st.targets[0].elts + st.value.elts):
+                tnames = {norm_ for t in st.targets[0].elts for norm_ in [ast.unparse(t)]}
+                vnames = {ast.unparse(x) for v in st.value.elts for x in ast.walk(v) if isinstance(x, (ast.Name, ast.Attribute))}
+                if not (tnames & vnames):
+                    for t, v in zip(st.targets[0].elts, st.value.elts):
+                        out.append(ast.copy_location(ast.Assign(targets=[t], value=v), st))
+                    continue
+            if isinstance(st, ast.Assign) and len(st.targets) == 1 and isinstance(st.targets[0], ast.Tuple) and \
+                    all(isinstance(e, ast.Name) for e in st.targets[0].elts) and isinstance(st.value, ast.Attribute) and \
+                    st.value.attr in ("sig_in", "sig_out"):
+                import copy as _copy
+                for k, e in enumerate(st.targets[0].elts):
+                    sub = ast.Subscript(value=_copy.deepcopy(st.value), slice=ast.Constant(value=k), ctx=ast.Load())
+                    out.append(ast.copy_location(ast.Assign(targets=[ast.Name(id=e.id, ctx=ast.Store())], value=sub), st))
+            else:
+                out.append(st)
+        return out
+
+    def generic_visit(self, node):
+        super().generic_visit(node)
+        for fld in ("body", "orelse", "finalbody"):
+            v = getattr(node, fld, None)
+            if isinstance(v, list) and v and isinstance(v[0], ast.stmt):
+                setattr(node, fld, self._split(v))
+        return node
+
+
+def _normalise_tree(tree: ast.Module, inline: bool = True):
+    if inline and not os.environ.get("PMLINT_NO_INLINE"):
+        from .inline import inline_helpers
+        inline_helpers(tree)
+        _Desugar().visit(tree)
+        ast.fix_missing_locations(tree)
     roots = set()
     for st in tree.body:
         if isinstance(st, ast.Import):
@@ -255,6 +321,8 @@ class Model:
 
     # ------------------------------------------------------------------------------------------- loading
     def _load(self):
+        from . import spans as _spans
+        _spans.reset()
         pkgdir = os.path.join(self.root, self.package)
         if not os.path.isdir(pkgdir):
             raise AnalysisError(f"package directory {pkgdir} not found")
@@ -275,6 +343,8 @@ class Model:
                     tree = ast.parse(src, filename=path)
                 except (SyntaxError, UnicodeDecodeError, OSError) as e:
                     raise AnalysisError(f"cannot parse {rel}: {e}")
+                from . import spans as _spans
+                _spans.record(rel, name[len(self.package) + 1:] if name.startswith(self.package + ".") else name, tree)
                 _normalise_tree(tree)
                 for n in ast.walk(tree):
                     for ch in ast.iter_child_nodes(n):
@@ -289,7 +359,7 @@ class Model:
                 tree = ast.parse(src, filename=rel)
             except SyntaxError as e:
                 raise AnalysisError(f"cannot parse overlay {rel}: {e}")
-            _normalise_tree(tree)
+            _normalise_tree(tree, inline=False)
             for n in ast.walk(tree):
                 for ch in ast.iter_child_nodes(n):
                     ch._parent = n  # type: ignore[attr-defined]
